@@ -8,5 +8,8 @@ INVARIANT CondenseOK
 INVARIANT OnsiteOK
 INVARIANT Diag2OK
 INVARIANT StateDiagOK
+INVARIANT SBRGWellFormedOK
 INVARIANT SBRGDiagOK
 INVARIANT SBRGExactOK
+INVARIANT Drift_Diag2
+INVARIANT Drift_Diag1
